@@ -77,6 +77,11 @@ class _Proxy:
         except CklRuntimeError as e:
             o, v = "err", _text(e.value)
             raise
+        except RecursionError:
+            # NodeBlock.evaluate turns the exhausted host stack into the runtime error 'ERROR' ("Recursion too
+            # deep") before it looks for a handler: from the block's point of view the statement raised that error
+            o, v = "err", "string:ERROR"
+            raise
         except BaseException:
             o = "sig"                      # a host exception passes the block like a signal (C13's subject)
             raise
